@@ -380,6 +380,63 @@ def _renumber(idx, rec):
                       f'{tag}: {got} expected {want}', case, expected=want, observed=got)
 
 
+# ------------------------------------------------------------------ parameters and literals holding whole numbers as ints
+def _int_typed(rec):
+    """Parameters declared with Python ints (Beta('a', 10, ...) keeps the int) and integer literals: every binary
+    operator kind over all ordered pairs of 8 whole-number values (incl. negative ones and results beyond 2**63), and over
+    0/1 results of comparisons, through the Python evaluator and the engine; reference: ordinary float arithmetic."""
+    import math
+    import biogeme.expressions as ex
+    vals = [2, -1, 10, 19, 3, 41, 7, -2]
+    ops = {
+        '+': (lambda a, b: a + b, lambda x, y: x + y), '-': (lambda a, b: a - b, lambda x, y: x - y),
+        '*': (lambda a, b: a * b, lambda x, y: x * y), '/': (lambda a, b: a / b, lambda x, y: x / y),
+        '**': (lambda a, b: a ** b, lambda x, y: math.pow(x, y)),
+        'min': (lambda a, b: ex.bioMin(a, b), min), 'max': (lambda a, b: ex.bioMax(a, b), max),
+        '>': (lambda a, b: a > b, lambda x, y: float(x > y)), '<=': (lambda a, b: a <= b, lambda x, y: float(x <= y)),
+        '==': (lambda a, b: a == b, lambda x, y: float(x == y)),
+    }
+    for op, (mk, ref) in ops.items():
+        for i, a in enumerate(vals):
+            for j, b in enumerate(vals):
+                for form in ('betas', 'beta-literal', 'comparison-base'):
+                    if form == 'comparison-base' and op not in ('**', '*', '+'):
+                        continue
+                    try:
+                        want = ref(float(a), float(b)) if form != 'comparison-base' else ref(float(a > 0), float(b))
+                    except (ValueError, ZeroDivisionError, OverflowError):
+                        continue                    # outside the domain of the operator (negative base, fractional result ...)
+                    if not math.isfinite(want) or abs(want) > 1e300:
+                        continue
+                    st = (i + j) % 2
+                    ea = ex.Beta(f'ia{i}', a, None, None, st)
+                    eb = ex.Beta(f'ib{j}', b, None, None, 1 - st)
+                    if form == 'beta-literal':
+                        if op in ('**',):
+                            continue                # a literal exponent makes another node kind (covered by the triples)
+                        expr = mk(ea, b)
+                    elif form == 'comparison-base':
+                        expr = mk(ea > 0, eb)
+                    else:
+                        expr = mk(ea, eb)
+                    tag = f'int-typed:{form}:{a}{op}{b}'
+                    case = dict(part='int_typed')
+                    for path in ('python', 'engine'):
+                        try:
+                            got = float(expr.get_value()) if path == 'python' else float(expr.get_value_c(prepare_ids=True))
+                        except Exception as e:
+                            if type(e).__name__ == 'NotImplementedError':
+                                continue
+                            rec.case((tag, path), (tag, path, type(e).__name__), outcome='raised')
+                            rec.violation(f'C01|{path}-evaluator-raised-{type(e).__name__}|int-typed:{op}',
+                                          f'{tag} ({path}): {type(e).__name__}: {str(e)[:160]}', case)
+                            continue
+                        rec.case((tag, path), (tag, path, got), outcome=('int-typed', path))
+                        if not R.close(got, want):
+                            rec.violation(f'C01|{path}-value|int-typed:{op}', f'{tag} ({path}) = {got!r}, mathematical value {want!r}', case,
+                                          expected=want, observed=got)
+
+
 # ------------------------------------------------------------------ tasks
 def tasks(tier, seed):
     t = []
@@ -389,6 +446,7 @@ def tasks(tier, seed):
         for i in range(0, len(tri), chunk):
             t.append(dict(part='triple', lo=i, hi=min(i + chunk, len(tri)), rot=rot))
     t.append(dict(part='ncdf_tail'))
+    t.append(dict(part='int_typed'))
     for i in range(len(renumber_cases())):
         t.append(dict(part='renumber', idx=i))
     sh = share_terms()
@@ -435,6 +493,8 @@ def run_task(task):
                 check_engine(_deepcopy_term(term), rec, tag + ':copies', f'copies:{p}', dict(case, shared=False), share=False)
         elif part == 'renumber':
             _renumber(task['idx'], rec)
+        elif part == 'int_typed':
+            _int_typed(rec)
         elif part == 'ncdf_tail':
             # the normal CDF on a grid reaching into both tails (the engine's upper tail is a recorded finding)
             for x in (-8.0, -6.0, -3.0, 0.0, 3.0, 5.5, 6.0, 6.5, 7.0, 8.0):
@@ -538,6 +598,8 @@ def replay(case):
                 check_engine(_deepcopy_term(term), rec, tag, f'copies:{p}', case)
         elif part == 'ncdf_tail':
             return run_task(dict(part='ncdf_tail'))['violations']
+        elif part == 'int_typed':
+            return run_task(dict(part='int_typed'))['violations']
         elif part == 'side':
             _side(dict(lo=case['idx'], hi=case['idx'] + 1, tier=case['tier']), rec)
         elif part == 'tree':
